@@ -6,6 +6,9 @@ R3 reply layout by minor version, major mismatch arms
 R4 write-size limits fit the transport buffers (constant relations); R7 (shared with C02) the dispatcher's oversize refusal leaves room for a maximal WRITE
 R5 feature toggles of Vfs / PassthroughFs / OverlayFs are switched on only under the negotiated flag
 R6 Vfs::init refuses a second INIT and publishes `initialized` after the backends
+R5 (cont.) exact switch-on condition of each backend toggle as a truth table over (under-vfs, configured, offered)
+R8 release/releasedir obey their own toggle (shared with C15.R3); R1-options-roundtrip toggles survive save/restore (shared with C19.R1)
+R9 a successful INIT records (InitIn.major, InitIn.minor) before it answers
 """
 import json
 import os
@@ -390,3 +393,4 @@ META = {
             "stores/returns exactly the option algebra of the table, refuses re-INIT and publishes initialised last.",
     "note": "Flag values are tied to the kernel in C13. Not decided: later behaviour of each toggle; page sizes other than 4 KiB.",
 }
+META["text"] += " " + 'Also: exact switch-on truth table per backend toggle, release paths obey their own toggle, toggles survive save/restore, the negotiated version is recorded before the reply.'
